@@ -157,4 +157,20 @@ PROPS = {
         need_events=["successful_handshakes", "failed_handshakes", "extra_ceas"],
         assumptions=TRUST + ["'sharing an application with the client' is decided only for the two unambiguous kinds of CEA: applications the client advertised (must succeed) and applications absent or unknown to the dictionary (must fail)"],
     ),
+    "C13": dict(
+        level="fault_enumeration",
+        rule="client role under synctest's virtual clock, after a scripted handshake with EnableWatchdog: the product of MaxRetransmits N in {0..3} x (WatchdogInterval, RetransmitInterval) in {(5 s,1 s),(2 s,3 s)} x transport schedule {answer queued at once, the client's Write returns 10 ms after the peer saw the bytes with the answer arriving in between, answer 1 ms before the retransmit timer} x peer pattern {answer every DWR for 30 periods, stop after the n-th round n=0..3, answer only the j-th transmission of every round j=0..N+1, answer with a failing result code}. Oracle over the transport's write log in virtual time: first DWR >= WatchdogInterval after the handshake, every round >= WatchdogInterval after the previous one ended, retransmissions byte-identical, >= RetransmitInterval apart, exactly N of them when unanswered, then Close (>= RetransmitInterval later) and no further writes or library goroutines; with every DWR answered in time the close count stays 0 and at least floor(H/(W+round))-1 rounds happen within the horizon H (bounded progress). Server role: DWRs with boundary identifiers, with/without Origin-State-Id and P bit to a handshaken state machine: exactly one DWA each, Result-Code 2001, local identity, mirrored header. distinct_nontrivial counts distinct (N, pattern, schedule, W>R) classes.",
+        runs=dict(quick=[race("TestC13", 12)], thorough=[race("TestC13", 16, 6000), plain("TestC13", 8, 3000)]),
+        floor=dict(quick=800, thorough=8000),
+        need_events=["silent_peer_detected", "responsive_peer_spared", "dwas_checked"],
+        assumptions=TRUST + ["'eventually sends a watchdog request' is restated as bounded progress within a virtual-time horizon of 30 periods"],
+    ),
+    "C14": dict(
+        level="fault_enumeration",
+        rule="every ordering pre + termination + post with pre over {F deliver a fragment (fragments cut three numbered messages inside message boundaries), h arm CloseNotify in the next handler invocation, o CloseNotify from another goroutine while the reader is blocked} with at most 4 F and 3 notifier requests in total, termination in {peer EOF, transport read error, undecodable message, undecodable message with trailing data in the same segment, local Close}, post = CloseNotify requested after the termination (0..3 times): each ordering is executed inside a synctest bubble with quiescence between events, so the ordering is the schedule; the same orderings are also fired without quiescence points (racing) under the race detector; plus sm.Client with the watchdog enabled (the watchdog goroutine is itself a CloseNotify user) x 5 terminations x 0..2 completed watchdog exchanges. Oracle: no obtained channel closed at any quiescent point before the termination, every obtained channel closed at quiescence after it, no 'panic serving' in the captured log, handler log = the messages completely delivered before the termination in order, transport closed, and no goroutine with library frames left (goroutine dump at quiescence, after advancing virtual time past the watchdog interval). distinct_nontrivial counts distinct (termination, #F, #h, #o, #t) classes.",
+        runs=dict(quick=[race("TestC14", 12)], thorough=[race("TestC14", 16, 6000), plain("TestC14", 8, 3000)]),
+        floor=dict(quick=4000, thorough=50000),
+        need_events=["orderings", "channels_checked", "client_watchdog_scenarios"],
+        assumptions=TRUST + ["'eventually closed' is restated as 'closed at quiescence of the bubble'"],
+    ),
 }
